@@ -7,6 +7,7 @@ import (
 	"fmt"
 	"reflect"
 	"sort"
+	"strings"
 	"testing"
 	"time"
 
@@ -193,6 +194,10 @@ func drawValue(c *Case, family string, n int) (v interface{}, zero bool) {
 			return "", true
 		}
 
+		if hv, ok := drawHugeString(c, n); ok {
+			return hv, false
+		}
+
 		return fmt.Sprintf("s%d", n), false
 	case "Of[ptr]":
 		switch c.Weighted("v", 3, 2, 1) {
@@ -214,6 +219,10 @@ func drawValue(c *Case, family string, n int) (v interface{}, zero bool) {
 		return dumpVal{A: n + 1, S: "x", B: []byte{1, 2}, M: map[string]int{"a": n}}, false
 	}
 
+	if hv, ok := drawHugeString(c, n); ok {
+		return hv, false
+	}
+
 	switch c.Weighted("v", 3, 2, 1, 1, 1, 1, 1, 1) {
 	case 0:
 		return fmt.Sprintf("s%d", n), false
@@ -232,6 +241,19 @@ func drawValue(c *Case, family string, n int) (v interface{}, zero bool) {
 	default:
 		return []int{n, 0, n}, false
 	}
+}
+
+// drawHugeString now and then yields a value whose gob record is tens of kilobytes to megabytes long
+// (around the sizes at which encoders and buffered writers switch strategy).
+func drawHugeString(c *Case, n int) (string, bool) {
+	if c.Weighted("huge-value", 150, 1) == 0 {
+		return "", false
+	}
+
+	size := []int{65537, 1<<20 - 64, 1<<20 + 64, 3 << 20}[c.Pick("huge-size", 4)]
+	c.Class("value-of-megabyte-size")
+
+	return fmt.Sprintf("huge%d:", n) + strings.Repeat("x", size), true
 }
 
 func drawKey(c *Case) []byte {
@@ -386,7 +408,7 @@ func fillAndTransfer(c *Case, chain []string, transfer func(src, dst dumpCache, 
 		src.put(k, v, ttl)
 
 		if len(keys) <= 8 {
-			c.Tracef("entry %q = %#v ttl=%v", k, v, ttl)
+			c.Tracef("entry %q = %.200s ttl=%v", k, fmt.Sprintf("%#v", v), ttl)
 		}
 	}
 
